@@ -23,6 +23,9 @@ def H3_FRAME_UNEXPECTED : Nat := 0x0105
 def H3_FRAME_ERROR : Nat := 0x0106
 def H3_SETTINGS_ERROR : Nat := 0x0109
 def H3_REQUEST_INCOMPLETE : Nat := 0x010d
+def H3_GENERAL_PROTOCOL_ERROR : Nat := 0x0101
+def H3_ID_ERROR : Nat := 0x0108
+def H3_MESSAGE_ERROR : Nat := 0x010e
 
 /-- the frame alphabet of the property, by meaning -/
 inductive K where
@@ -47,6 +50,13 @@ inductive K where
   /-- SETTINGS with unacceptable content (§7.2.4.1) on a request stream: out of place and
       invalid, either code is right -/
   | S
+  /-- frame type 0x41, the WEBTRANSPORT_STREAM signal of draft-ietf-webtrans-http3, with its session
+      id (R-03b: a type that is DEFINED and allocated — not one of the unknown / reserved types
+      that §9 says to ignore — and whose only place is the very start of a stream that is handed to
+      the WebTransport layer instead of the request API, C19) -/
+  | W
+  /-- frame type 0x41 read, the session id not (yet) complete when the stream stops -/
+  | Wpart
 deriving Repr, DecidableEq
 
 inductive Side where
@@ -93,15 +103,16 @@ structure Outcome where
   streamReset : Option Nat := none
 deriving Repr, DecidableEq
 
+/-- The verdict is ALWAYS a finite list of explicit outcomes: where the property text leaves the
+    answer open (R-03: the client-side counterparts of the two server rules) the list names every
+    alternative the RFC allows — a panic, a hang, or going on to process the stream is never among
+    them.  (Until the audit there was a constructor `any` = "no opinion" for these cases.) -/
 inductive Expect where
-  /-- the property leaves this case open (R-03) -/
-  | any
   /-- exactly one of these -/
   | oneOf (os : List Outcome)
 deriving Repr, DecidableEq
 
 def Expect.accepts : Expect → Outcome → Prop
-  | .any, _ => True
   | .oneOf os, o => o ∈ os
 
 instance (e : Expect) (o : Outcome) : Decidable (e.accepts o) := by
@@ -125,6 +136,19 @@ def Phase.seen : Phase → List Obs
 def violation (p : Phase) (codes : List Nat) : Expect :=
   .oneOf (codes.map fun c => { calls := p.seen ++ [.connError c], connError := some c })
 
+/-- R-03, client side of "the stream ends before any HEADERS".  The property fixes the server's
+    answer only; for a client RFC 9114 §4.1 makes a response without a header section incomplete,
+    hence the call that waits for the response must FAIL: with the connection error
+    H3_FRAME_UNEXPECTED (the end of the stream where HEADERS is the only frame allowed — what h3
+    does) or with an error confined to the stream (§4.1.2 malformed: H3_MESSAGE_ERROR; incomplete:
+    H3_REQUEST_INCOMPLETE; H3_GENERAL_PROTOCOL_ERROR), the stream reset with that code or not.
+    Delivering a response, reporting a clean end, waiting for ever or panicking are not in the list. -/
+def clientNoResponse : Expect :=
+  -- since the repair 132f8d8 (D-07a, property C07: a stream abandoned before its headers never closes the
+  -- connection) the connection error H3_FRAME_UNEXPECTED is no longer among the alternatives
+  .oneOf ([H3_MESSAGE_ERROR, H3_REQUEST_INCOMPLETE, H3_GENERAL_PROTOCOL_ERROR].flatMap fun c =>
+      [{ calls := [.streamError c] }, { calls := [.streamError c], streamReset := some c }])
+
 /-- the stream stops while the recogniser is in phase `p` -/
 def atStop (side : Side) (p : Phase) : Stop → Expect
   | .truncated => violation p [H3_FRAME_ERROR]
@@ -141,14 +165,33 @@ def atStop (side : Side) (p : Phase) : Stop → Expect
       match side with
       | .server => .oneOf [{ calls := [.streamError H3_REQUEST_INCOMPLETE],
                              streamReset := some H3_REQUEST_INCOMPLETE }]
-      | .client => .any
+      | .client => clientNoResponse
     | .body h acc => .oneOf [{ calls := [.head h, .body acc, .bodyEnd, .noTrailers] }]
     | .trailers h acc t => .oneOf [{ calls := [.head h, .body acc, .bodyEnd, .trailers t] }]
+
+/-- the alternatives of both -/
+def Expect.union : Expect → Expect → Expect
+  | .oneOf a, .oneOf b => .oneOf (a ++ b)
+
+/-- R-03b: the stream stops inside a 0x41 header (type read, session id incomplete).  The type is
+    already known to be out of place, so refusing it at once is in order; so is waiting for the
+    rest of the header (stream open: the call is pending; RESET: the call sees the reset; FIN: the
+    header is cut short, H3_FRAME_ERROR). -/
+def atWpart (p : Phase) : Stop → Expect
+  | .open_ => (Expect.oneOf [{ calls := p.seen ++ [.pending] }]).union (violation p [H3_FRAME_UNEXPECTED])
+  | .reset c => (Expect.oneOf [{ calls := p.seen ++ [.resetBy c] }]).union (violation p [H3_FRAME_UNEXPECTED])
+  | _ => violation p [H3_FRAME_ERROR, H3_FRAME_UNEXPECTED]
 
 /-- read the frames left to right -/
 def expected (side : Side) : Phase → List K → Stop → Expect
   | p, [], stop => atStop side p stop
   | p, .U :: r, stop => expected side p r stop
+  -- R-03b: on a stream read through the request API (whether or not WebTransport was negotiated on
+  -- the connection) 0x41 is a known frame out of place: connection error H3_FRAME_UNEXPECTED
+  -- (RFC 9114 §4.1, what h3 does) or H3_FRAME_ERROR (it is not a well-formed HTTP/3 frame: it has
+  -- no length).  It is never skipped, acted on, or a reason to hang or panic.
+  | p, .W :: _, _ => violation p [H3_FRAME_UNEXPECTED, H3_FRAME_ERROR]
+  | p, .Wpart :: _, stop => atWpart p stop
   | p, .R :: _, _ => violation p [H3_FRAME_UNEXPECTED]
   | p, .X :: _, _ => violation p [H3_FRAME_UNEXPECTED]
   | p, .M :: _, _ => violation p [H3_FRAME_ERROR, H3_FRAME_UNEXPECTED]
@@ -156,7 +199,11 @@ def expected (side : Side) : Phase → List K → Stop → Expect
   | p, .P :: _, _ =>
     match side with
     | .server => violation p [H3_FRAME_UNEXPECTED]
-    | .client => .any
+    -- R-03, client side: h3 has no push support and never sends MAX_PUSH_ID, so every PUSH_PROMISE
+    -- carries a push ID above the (absent) limit: §7.2.5 H3_ID_ERROR; refusing the frame as
+    -- unexpected is the other acceptable answer.  Either way the call in progress fails with a
+    -- connection error; the frame is never skipped or acted on.
+    | .client => violation p [H3_FRAME_UNEXPECTED, H3_ID_ERROR]
   | .start, .H b :: r, stop => expected side (.body b []) r stop
   | .start, .D _ :: _, _ => violation .start [H3_FRAME_UNEXPECTED]
   | .start, .Dpart _ :: _, _ => violation .start [H3_FRAME_UNEXPECTED]
